@@ -456,8 +456,28 @@ pub fn run_case(case: &CorruptCase, wroot: &Path, stats: &mut Stats) -> CorruptR
     }
     let mut last: Option<(usize, Mutation)> = None;
     let mut done = false;
+    let mut hung = false;
     if let Some(out) = child.stdout.take() {
-      for line in BufReader::new(out).lines().map_while(|l| l.ok()) {
+      // lines arrive through a channel so that a child that stops making
+      // progress (an endless loop on corrupted data) can be told from a slow one
+      let (tx, rx) = std::sync::mpsc::channel::<String>();
+      let reader = std::thread::spawn(move || {
+        for line in BufReader::new(out).lines().map_while(|l| l.ok()) {
+          if tx.send(line).is_err() {
+            break;
+          }
+        }
+      });
+      loop {
+        let line = match rx.recv_timeout(std::time::Duration::from_secs(60)) {
+          Ok(l) => l,
+          Err(std::sync::mpsc::RecvTimeoutError::Timeout) => {
+            hung = true;
+            let _ = child.kill();
+            break;
+          }
+          Err(std::sync::mpsc::RecvTimeoutError::Disconnected) => break,
+        };
         if let Some(rest) = line.strip_prefix("M ") {
           let mut it = rest.splitn(2, ' ');
           let idx = it.next().and_then(|s| s.parse::<usize>().ok());
@@ -504,6 +524,8 @@ pub fn run_case(case: &CorruptCase, wroot: &Path, stats: &mut Stats) -> CorruptR
           }
         }
       }
+      drop(rx);
+      let _ = reader.join();
     }
     let status = child.wait();
     if done {
@@ -517,13 +539,23 @@ pub fn run_case(case: &CorruptCase, wroot: &Path, stats: &mut Stats) -> CorruptR
           Mutation::Truncate { file, len } => (file.clone(), format!("{} truncated to {} bytes", file, len)),
         };
         stats.inc("probe.child_process_died");
-        let viol = Violation::new(
-          &["C17"],
-          "abort",
-          &file_class(&file),
-          0,
-          format!("{}: opening / searching the index killed the process ({:?}) - e.g. an allocation sized by a corrupted length", what, status.map(|s| s.to_string())),
-        );
+        let viol = if hung {
+          Violation::new(
+            &["C17"],
+            "hang",
+            &file_class(&file),
+            0,
+            format!("{}: opening / searching the index made no progress for 60 s (endless loop on corrupted data?); the process was killed", what),
+          )
+        } else {
+          Violation::new(
+            &["C17"],
+            "abort",
+            &file_class(&file),
+            0,
+            format!("{}: opening / searching the index killed the process ({:?}) - e.g. an allocation sized by a corrupted length", what, status.map(|s| s.to_string())),
+          )
+        };
         if !run.violations.iter().any(|o| o.same_kind(&viol)) {
           run.pins.push((viol.clone(), m));
           run.violations.push(viol);
